@@ -781,8 +781,9 @@ err_t dstuPointRecover(octet point[], const dstu_params* params,
 		// b <- b^{2^{m - 1}}
 		while (--m)
 			qrSqr(ec->B, ec->B, ec->f, stack);
-		// выгрузить y-координату
-		qrTo(point + ec->f->n, ec->B, ec->f, stack);
+		// выгрузить x- и y-координаты
+		memSetZero(point, ec->f->no);
+		qrTo(point + ec->f->no, ec->B, ec->f, stack);
 		// все нормально
 		dstuEcClose(ec);
 		return ERR_OK;
